@@ -187,6 +187,9 @@ def run(c, facts, tier):
     b = peg.Builder(facts)
     g = peg.Grammar(b)
     an = Anchors(facts, b)
+    from .. import glue
+
+    glue.obligations(c, facts, b, "C05")
     tokfn = an.role("token")
     lexfn = an.role("lex")
     scope = b.scope(facts.fn(tokfn).module)
